@@ -474,7 +474,7 @@ func TestUntargeted(t *testing.T) {
 		},
 		Classes: classesUntargeted,
 		Journal: true,
-		Quick:   1200, Thorough: 20000,
+		Quick:   1200, Thorough: 15000,
 	})
 }
 
